@@ -2,6 +2,7 @@ import DigModel.Proofs.ApiLemmas
 import DigModel.Proofs.ReachApi
 import DigModel.Proofs.ProvApi
 import DigModel.Proofs.DepsApi
+import DigModel.Proofs.GroupsBuilt
 /-
   C03 — Laziness.
 
@@ -34,7 +35,10 @@ import DigModel.Proofs.DepsApi
     and declaring the key, or by a decorator of that scope that has run (`Just`, `Just2`).
   Together: after a successful Invoke, the constructors and decorators that produced the invoked function's required
   single dependencies are built, and so are, transitively, those that produced theirs.  For non-soft value groups:
-  `C10_feeders_built` (every provider of the key on the path is built when the parameter is delivered).  An optional
+  `C03_success_leaves_group_feeders_built` (whole programs: after a successful Invoke every non-soft value group among the
+  invoked function's parameters, at any depth of parameter objects, is decorated on the path — a decorator registered or a
+  decorated group cached — or has **every** provider on the path from the invoking scope built; `groups_built`,
+  induction over parameter objects with "built stays built" and "caches keep their keys").  An optional
   dependency whose constructor cannot be built for missing dependencies is delivered as the zero value and its
   constructor does not run (`providerStep`); the exact must-run closure including that case and the interplay with
   decorators being skipped while they run is compared with the real library by the trace predicate `pred_c03`.
@@ -147,6 +151,29 @@ theorem C03_available_means_built (p : Program) (c : Nat) (k : Key) (h : HasKey 
       obtain ⟨n, slot, decl, h1, h2, h3, h4, _⟩ := just_program p S k v hg
       exact Or.inr ⟨n, slot, decl, h1, h2, h3, h4⟩
 
+
+theorem C03_success_leaves_group_feeders_built (p : Program) (i s f : Nat) (info : Bool)
+    (hok : (step p.ctx p.fns (runProgram p).1 i (.invoke s f info)).2.v = .ok) :
+    ∃ fn params w0, fnOf p.fns f = some fn ∧
+      parseParams p.types { (runProgram p).1 with log := [] } s fn = (.ok params, w0) ∧
+      ∀ k ∈ hardGroupsL params, GroupBuilt (step p.ctx p.fns (runProgram p).1 i (.invoke s f info)).1 s k := by
+  have hv : ValidReg (runProgram p).1 := (NBInv.runOps p.ctx p.fns p.ops 0 {} [] (NBInv.init _)).h.valid
+  generalize (runProgram p).1 = st at hv hok ⊢
+  have hv0 : ValidReg { st with log := [] } := hv
+  simp only [step] at hok ⊢
+  cases hf : fnOf p.fns f with
+  | none => rw [hf] at hok; simp at hok
+  | some fn =>
+    rw [hf] at hok
+    simp only at hok ⊢
+    split
+    · rename_i hs
+      rw [if_pos hs] at hok
+      obtain ⟨params, w0, hp, hall⟩ := invoke_groups_built p.ctx hv0 fn s info hok
+      exact ⟨fn, params, w0, rfl, hp, hall⟩
+    · rename_i hs; rw [if_neg hs] at hok; simp at hok
+
+#print axioms C03_success_leaves_group_feeders_built
 #print axioms C03_built_nodes_have_their_dependencies
 #print axioms C03_success_leaves_dependencies_built
 #print axioms C03_available_means_built
